@@ -44,7 +44,11 @@ func Exec(c *core.Ctx, cs *core.Case) {
 	}
 	c.Begin(cs)
 	c.R.Evaluations++
-	ev(c, cs)
+	// evaluators guard the encoder calls themselves; a panic that escapes them comes from an
+	// accessor of a returned barcode (At, Bounds, Content, ...) while it is being examined
+	if p, w := Safely(func() { ev(c, cs) }); p {
+		c.Fail(c.ID, cs, "panic while the returned barcode was examined (pixel or accessor read): %s", w)
+	}
 	c.End()
 	c.Remember(cs)
 }
